@@ -18,7 +18,7 @@ from twisted.internet import task
 from . import wiresys, tlc, env
 from .core import Machinery
 
-ALPHA = 'abcd.x'
+ALPHA = 'abcd.x\u00e9\u4e2d'      # incl. non-ASCII letters: list files and names are UTF-8
 PROP = {'filtered-wrongly', 'admitted-wrongly', 'timestamp', 'altered', 'counter:blacklistMatches', 'counter:whitelistRejects'}
 WHAT = {
   'filtered-wrongly': 'a datapoint that no rule excludes did not reach the pipeline',
@@ -56,7 +56,7 @@ def render(p):
 
 def gen_line(rng):
   k = rng.choice(['sub', 'sub', 'prefix', 'suffix', 'exact', 'alt', 'comment', 'blank', 'invalid'])
-  lits = [enc(''.join(rng.choice('abcd.') for _ in range(rng.randint(1, 3)))) for _ in range(3 if k == 'alt' else 1)]
+  lits = [enc(''.join(rng.choice('abcd.\u00e9\u4e2d' if rng.random() < 0.3 else 'abcd.') for _ in range(rng.randint(1, 3)))) for _ in range(3 if k == 'alt' else 1)]
   p = dict(k=k, lits=lits)
   if k == 'invalid':
     p['text'] = rng.choice(['(', '[a', '*a', 'a(b', '(?P<x'])
@@ -64,7 +64,7 @@ def gen_line(rng):
 
 
 def gen_name(rng, lines):
-  base = ''.join(rng.choice('abcdx') for _ in range(rng.randint(1, 4)))
+  base = ''.join(rng.choice('abcdx\u00e9') for _ in range(rng.randint(1, 4)))
   cands = [base]
   for p in lines:
     if p['k'] in ('sub', 'prefix', 'suffix', 'exact', 'alt'):
@@ -98,7 +98,7 @@ class Adm(object):
     path = os.path.join(self.dir, 'list%d.conf' % self.nfile)
 
     def write(ls, mtime):
-      with open(path, 'w') as fh:
+      with open(path, 'w', encoding='utf-8') as fh:
         for p in ls:
           fh.write(render(p) + '\n')
       os.utime(path, (mtime, mtime))
